@@ -48,7 +48,7 @@ def classify(res, verdict, a, b):
     sc = res["script"]
     died = [e for e in res.get("thread_errors", []) if e[0] == "DULServiceProvider"]
     if died:
-        return f"c06:{verdict}:provider-thread-died"
+        return f"c06:{verdict}:provider-thread-died:{e2e.died_cause(died)}"
     if verdict.endswith("terminal-event-not-once"):
         side = a if verdict.startswith("requestor") else b
         if side[2] and side[4].count("aborted") == 2 and side[4].count("released") == 0:
@@ -103,7 +103,7 @@ def run(ctx):
         provider_died = [e for e in r.get("thread_errors", []) if e[0] == "DULServiceProvider"]
         for side in ("req", "acc"):
             if not r[side]["sock_closed"]:
-                sig = "c06:socket-not-closed:provider-thread-died" if provider_died else f"c06:socket-not-closed:{side}"
+                sig = f"c06:socket-not-closed:provider-thread-died:{e2e.died_cause(provider_died)}" if provider_died else f"c06:socket-not-closed:{side}"
                 ctx.fail(sig, f"{side} socket still open at the end (script {sc}; provider errors {provider_died})", case)
         died = [e for e in r.get("thread_errors", []) if e[0] != "DULServiceProvider"]
         if died:
